@@ -279,7 +279,7 @@ structure Lookup where
   name : Option String
   flag : Flag
   rules : List Rule
-  deriving Repr, Inhabited
+  deriving DecidableEq, Repr, Inhabited
 
 def Lookup.kind (l : Lookup) : Kind := (l.rules.head?.map Rule.kind).getD .single
 def Lookup.isPos (l : Lookup) : Bool := l.rules.any (·.kind.isPos)
@@ -570,7 +570,7 @@ def registered (langsys : List (Tag × Tag)) (body : List Stmt) (reg : Reg) (scr
 structure Entry where
   lookup : Lookup
   regs : List (Tag × Tag × Tag)
-  deriving Repr, Inhabited
+  deriving DecidableEq, Repr, Inhabited
 
 def allPairs (langsys : List (Tag × Tag)) (body : List Stmt) : List (Tag × Tag) :=
   (langsys ++ (langStmts none body).map fun (x : Tag × Tag × Bool) => (x.1, x.2.1)).eraseDups
@@ -1750,6 +1750,12 @@ def violations (p : Program) : List String :=
    (if (p.tops.dropWhile fun | .langsys .. => true | _ => false).any (fun | .langsys .. => true | _ => false) then ["langsys-late"] else [])).eraseDups
 
 def ok (p : Program) : Bool := (violations p).isEmpty
+
+/-- the violations that are defects of the compiler, not restrictions of the language -/
+def anonWords : List String := ["anon-single-clobber", "anon-lig-split", "anon-lig-prefix"]
+
+/-- inside the modelled subset except, possibly, for the defects of the anonymous lookups -/
+def okUpToAnon (p : Program) : Bool := (violations p).all (anonWords.contains ·)
 
 end Wf
 
